@@ -1522,3 +1522,110 @@ def r16_skip_only_on_zero_mask_word(ck, P, rid='C01-R10'):
                         work.append((z, partial))
     if n == 0:
         ck.incomplete(R, 'no mask test found in any fetcher')
+
+
+def r18_rotation_tiles(ck, P, rid='C08-R18'):
+    """symbolic path execution of the tiled 90 / 270 degree copies: the destination is cut into a leading, cache-line aligned middle and
+    trailing group of columns, and every group must be handed the source rows that belong to exactly those columns, whatever was
+    adjusted (dst, src, W) on the way there."""
+    import sympy
+    from .factors import _loops_of
+    R = ck.rule(rid, 'in every tiled rotation copy (blt_rotated_90_* / blt_rotated_270_*) each call of the per-tile helper, on every path through the leading / middle / trailing split, receives for destination columns [a, a + w) the source rows that a rotation assigns to them: src + src_stride * a for 90 degrees, src + src_stride * (W - a - w) for 270 degrees, a and W measured from the arguments of the function', floor=40)
+    u = P.units.get('pixman-fast-path.c')
+    if u is None:
+        raise AnalysisBroken('pixman-fast-path.c not compiled')
+    L = _loops_of(u)
+    n = 0
+    for fn, f in sorted(u.functions.items()):
+        helpers = [c for c in f.calls() if c.callee and c.callee != fn and ('_trivial_' in c.callee) and len(c.a) == 6]
+        if not helpers or len(f.params) != 6 or '_trivial_' in fn:
+            continue
+        kind = None
+        # the helper tells the direction: which helper family is called
+        fam = {c.callee.split('_trivial_')[0] for c in helpers}
+        if len(fam) != 1:
+            continue
+        DST, SRC, DS, SS, W0, H0 = sympy.symbols('DST SRC dst_stride S W H')
+        argsym = [DST, DS, SRC, SS, W0, H0]
+        headers = {lp['header'] for lp in L.get(fn, [])}
+        opaque = {}
+        results = []          # (call, dst_off, src_off, w)
+        budget = [0]
+
+        def val(o, env):
+            if o[0] == 'c':
+                return sympy.Integer(int(o[1]))
+            if o[0] == 'a':
+                return argsym[o[1]]
+            if o[0] == 'v':
+                if o[1] in env:
+                    return env[o[1]]
+                return opaque.setdefault(o[1], sympy.Symbol('t%d' % o[1]))
+            return sympy.Symbol('u')
+
+        def step(x, env):
+            if x.op in ('sext', 'zext', 'trunc', 'bitcast', 'freeze'):
+                env[x.i] = val(x.a[0], env)
+            elif x.op in ('add', 'sub', 'mul'):
+                a, b = val(x.a[0], env), val(x.a[1], env)
+                env[x.i] = a + b if x.op == 'add' else a - b if x.op == 'sub' else sympy.expand(a * b)
+            elif x.op == 'shl' and x.a[1][0] == 'c':
+                env[x.i] = val(x.a[0], env) * (1 << int(x.a[1][1]))
+            elif x.op == 'getelementptr':
+                idx = [st[1] for st in x.d.get('path', []) if st and st[0] in ('p', 'x') and isinstance(st[1], list)]
+                if len(idx) == 1:
+                    env[x.i] = val(x.a[0], env) + val(idx[0], env)
+                else:
+                    env[x.i] = opaque.setdefault(x.i, sympy.Symbol('t%d' % x.i))
+            elif x.op == 'call' and x.callee and '_trivial_' in x.callee:
+                d_, s_, w_ = val(x.a[0], env), val(x.a[2], env), val(x.a[4], env)
+                results.append((x, sympy.expand(d_ - DST), sympy.expand(s_ - SRC), sympy.expand(w_)))
+            elif x.op in ('store', 'br', 'ret', 'switch', 'alloca'):
+                pass
+            else:
+                env[x.i] = opaque.setdefault(x.i, sympy.Symbol('t%d' % x.i))
+
+        def walk(b, prev, env, visited):
+            budget[0] += 1
+            if budget[0] > 4000:
+                return
+            env = dict(env)
+            for x in f.blocks[b].insts:
+                if x.op == 'phi':
+                    if b in headers:
+                        env[x.i] = opaque.setdefault(x.i, sympy.Symbol('x%d' % x.i))       # any iteration of the tile loop
+                    else:
+                        for a, bb in zip(x.a, x.d['bb']):
+                            if bb == prev:
+                                env[x.i] = val(a, env)
+                    continue
+                step(x, env)
+            for s_ in f.blocks[b].succ:
+                if (b, s_) in visited:
+                    continue
+                walk(s_, b, env, visited | {(b, s_)})
+
+        walk(0, None, {}, frozenset())
+        if not results:
+            continue
+        is270 = None
+        seen = set()
+        for c, doff, soff, w in results:
+            key = (c.i, doff, soff, w)
+            if key in seen:
+                continue
+            seen.add(key)
+            n += 1; ck.saw(f)
+            e90 = sympy.expand(soff - SS * doff)
+            e270 = sympy.expand(soff - SS * (W0 - doff - w))
+            where = '%s: %s at %s (columns %s .. +%s)' % (fn, c.callee, c.loc(), doff, w)
+            if e90 == 0 and '270' not in fn:
+                ck.ok(R, where, 'src + S * a')
+            elif e270 == 0 and '90' not in fn.replace('270', ''):
+                ck.ok(R, where, 'src + S * (W - a - w)')
+            elif e90 == 0 or e270 == 0:
+                ck.violation(R, fn, 'tile at %s' % c.loc(), '%s hands %s the source rows of the opposite rotation for destination columns starting at %s' % (fn, c.callee, doff), c.loc())
+            else:
+                ck.violation(R, fn, 'tile at %s' % c.loc(), '%s calls %s for the destination columns [%s, +%s) with the source offset %s, which is neither S * a (90 degrees) nor S * (W - a - w) (270 degrees) for these columns (a, W measured from the function\'s arguments): along this path the adjustments of dst, src and W before the call do not add up, so the tile is copied from the wrong source rows' % (fn, c.callee, doff, w, soff), c.loc())
+    if n == 0:
+        raise AnalysisBroken('%s: no tiled rotation copy found in pixman-fast-path.c' % rid)
